@@ -342,6 +342,13 @@ fn items(tier: Tier) -> &'static Vec<(Sc, u32)> {
                 }
             }
         }
+        // magnitudes (default schedule): a burst far above any plausible ceiling, closed, then a
+        // long idle period (all surplus workers reclaimed), then a second one
+        for n in if thorough { vec![300usize, 1100, 2100] } else { vec![300usize, 1100] } {
+            v.push((Sc { bursts: vec![Burst { n, close: true, idle_ms: LONG_IDLE_MS }], drop_at: DropAt::End, burst_at_retirement: None }, 0));
+            v.push((Sc { bursts: vec![Burst { n, close: true, idle_ms: LONG_IDLE_MS }, Burst { n: 8, close: true, idle_ms: LONG_IDLE_MS }], drop_at: DropAt::End, burst_at_retirement: None }, 0));
+            v.push((Sc { bursts: vec![Burst { n, close: false, idle_ms: 5100 }, Burst { n: 8, close: true, idle_ms: LONG_IDLE_MS }], drop_at: DropAt::End, burst_at_retirement: None }, 0));
+        }
         // server drop at every position, schedules explored around the drop
         for drop_at in [DropAt::BeforeAnyConnection, DropAt::RacingWithConnect, DropAt::RequestQueued, DropAt::RequestHandedOut, DropAt::WorkersRetiring, DropAt::End] {
             for pre in [vec![], vec![Burst { n: 1, close: true, idle_ms: 0 }], vec![Burst { n: 6, close: true, idle_ms: 0 }], vec![Burst { n: 2, close: false, idle_ms: 0 }]] {
@@ -412,7 +419,7 @@ impl Check for C20 {
     }
     fn rule(&self, tier: Tier) -> String {
         format!(
-            "histories of 1..{} bursts (3 in both tiers) of N in {:?} connections (each answered; closed or left open) followed by {:?} ms of virtual idleness, at the default schedule; server drop {{before any connection, racing with a connecting client, with a request queued but never received, with a request handed out and answered afterwards, while surplus workers are retiring, at the end}} after histories {{none, 1 closed, 6 closed, 2 open}} with all schedules of at most {} deviations (strict; one less after the longer histories) around the drop; a burst of 1/2/5 arriving exactly when the surplus workers of a burst of 5/6/8 reach their 5 s idle timeout (left open: all must be answered; or closed and followed by 120 s of idleness: threads must be reclaimed), same bound; {} scenarios; oracle: after the drop and quiescence a new connect is refused in every schedule, a handed-out request is still answered and its bytes reach the client, every burst is answered completely, threads alive after 120 s of idleness (far above any sensible idle period; the statement names none) <= baseline + open connections; non-trivial = all",
+            "histories of 1..{} bursts (3 in both tiers) of N in {:?} connections (each answered; closed or left open) followed by {:?} ms of virtual idleness, at the default schedule; bursts of 300 / 1100 (thorough 2100) connections followed by the long idle period and a further burst; server drop {{before any connection, racing with a connecting client, with a request queued but never received, with a request handed out and answered afterwards, while surplus workers are retiring, at the end}} after histories {{none, 1 closed, 6 closed, 2 open}} with all schedules of at most {} deviations (strict; one less after the longer histories) around the drop; a burst of 1/2/5 arriving exactly when the surplus workers of a burst of 5/6/8 reach their 5 s idle timeout (left open: all must be answered; or closed and followed by 120 s of idleness: threads must be reclaimed), same bound; {} scenarios; oracle: after the drop and quiescence a new connect is refused in every schedule, a handed-out request is still answered and its bytes reach the client, every burst is answered completely, threads alive after 120 s of idleness (far above any sensible idle period; the statement names none) <= baseline + open connections; non-trivial = all",
             if tier == Tier::Thorough { 3 } else { 2 }, if tier == Tier::Thorough { vec![1, 4, 5, 8] } else { vec![1, 5, 8] },
             if tier == Tier::Thorough { vec![0, 4900, 5100, 11000, LONG_IDLE_MS] } else { vec![0, 4900, 5100, LONG_IDLE_MS] }, if tier == Tier::Thorough { 2 } else { 1 }, items(tier).len()
         )
